@@ -245,7 +245,8 @@ theorem nextFrame_fields (r : Rd) (s : Src) (cx : Ctx) :
           ∧ (r.nextFrame s cx none).2.2.1.state = r.state)
        ∨ ((r.nextFrame s cx none).2.1 = none ∧ (r.nextFrame s cx none).2.2.1.hasFrame = true
           ∧ ∃ h : Header, (r.nextFrame s cx none).2.2.1.utf8on = (r.checkUTF8 && (h.op == opText || (r.fragmented && r.opCode == opText)))
-              ∧ (r.nextFrame s cx none).2.2.1.opCode = (if r.fragmented then r.opCode else h.op))) := by
+              ∧ (r.nextFrame s cx none).2.2.1.opCode = (if r.fragmented then r.opCode else h.op)
+              ∧ (r.nextFrame s cx none).1 = some h)) := by
   obtain ⟨st, sk, ck, ex, co, mf, oc, hf, rn, mk, msk, cp, uon, u8⟩ := r
   unfold Rd.nextFrame
   rcases readHeaderUtil s with ⟨res, s1⟩
@@ -276,7 +277,7 @@ theorem nextFrame_fields (r : Rd) (s : Src) (cx : Ctx) :
             rw [h]
             exact ⟨rfl, rfl, Or.inl ⟨rfl, rfl, rfl⟩⟩
           · simp only [hb, if_false]
-            refine ⟨?_, ?_, Or.inr ⟨rfl, rfl, h2, ?_, ?_⟩⟩ <;>
+            refine ⟨?_, ?_, Or.inr ⟨rfl, rfl, h2, ?_, ?_, rfl⟩⟩ <;>
               (by_cases hfr : stIs st stFragmented = true <;> simp [hfr])
 
 /-! ### Reader.Read split into its two halves -/
@@ -615,12 +616,136 @@ theorem read_sim (σ : U8) (r : Rd) (s : Src) (cx : Ctx) (k : Nat) (htm : TM σ 
       · rw [if_neg hh1] at h ⊢
         have hh1' : r1.hasFrame = true := by simpa using hh1
         have htm1 : TM σ r1 := by
-          rcases f3 with ⟨g1, _, _⟩ | ⟨_, _, hx, g4, g5⟩
+          rcases f3 with ⟨g1, _, _⟩ | ⟨_, _, hx, g4, g5, _⟩
           · rw [hhas'] at g1; rw [g1] at hh1'; cases hh1'
           · have hop := htm.op hfr
             refine ⟨by rw [f1]; exact htm.chk, by rw [f2]; exact htm.st, htm.ok, fun _ => ?_, fun _ => ?_, Or.inl hh1'⟩
             · rw [g4, htm.chk, hfr, hop]; simp
             · rw [g5, hfr]; simpa using hop
         exact tail_sim σ r1 s1 cx1 k htm1 hh1' bytes n e q s' cx' h hwf
+
+theorem wf_left {a b : Bytes} (h : Bytes.WF (a ++ b)) : Bytes.WF a := fun x hx => h x (List.mem_append_left _ hx)
+theorem wf_right {a b : Bytes} (h : Bytes.WF (a ++ b)) : Bytes.WF b := fun x hx => h x (List.mem_append_right _ hx)
+
+theorem u8Run_rej_of_prefix (σ : U8) (a b : Bytes) (h : u8Run σ a = .rej) : u8Run σ (a ++ b) = .rej := by
+  rw [u8Run_append, h, u8Run_rej]
+
+/-- the non-checking reader reports every byte it hands out -/
+theorem tail_strip_n (r : Rd) (s : Src) (cx : Ctx) (k : Nat) (bytes : Bytes) (n : Nat) (e : Option RErr) (q : Rd)
+    (s' : Src) (cx' : Ctx) (h : tail (strip r) s cx k = some (bytes, n, e, q, s', cx')) : n = bytes.length := by
+  unfold tail at h
+  rcases hfr : (strip r).frameRead s k with _ | ⟨p, n0, e0, q2, s2⟩
+  · rw [hfr] at h; simp at h
+  obtain ⟨hq2, hn0, _, _, _⟩ := frameRead_strip_fix r s k p n0 e0 q2 s2 hfr
+  have hq2c : q2.checkUTF8 = false := by rw [← hq2]; rfl
+  rw [hfr] at h
+  cases e0 with
+  | none =>
+    simp only [hq2c, Bool.false_and, Bool.false_eq_true, if_false] at h
+    split at h <;> (try split at h) <;> (try split at h) <;>
+      (simp only [Option.some.injEq, Prod.mk.injEq] at h; obtain ⟨h1, h2, _⟩ := h; rw [← h1, ← h2]; exact hn0)
+  | some e1 =>
+    cases e1 <;> simp only [hq2c, Bool.false_and, Bool.false_eq_true, if_false] at h <;>
+      (try (split at h <;> (try split at h) <;> (try split at h))) <;>
+      (simp only [Option.some.injEq, Prod.mk.injEq] at h; obtain ⟨h1, h2, _⟩ := h; rw [← h1, ← h2]; exact hn0)
+
+theorem read_strip_n (r : Rd) (s : Src) (cx : Ctx) (k : Nat) (bytes : Bytes) (n : Nat) (e : Option RErr) (q : Rd)
+    (s' : Src) (cx' : Ctx) (h : (strip r).read s cx k none = some (bytes, n, e, q, s', cx')) : n = bytes.length := by
+  by_cases hhas : (strip r).hasFrame = true
+  · rw [read_has _ _ _ _ hhas] at h
+    exact tail_strip_n r s cx k bytes n e q s' cx' h
+  · have hhas' : (strip r).hasFrame = false := by simpa using hhas
+    by_cases hfrg : (strip r).fragmented = true
+    · rw [read_next _ _ _ _ hhas' hfrg, nextFrame_strip] at h
+      rcases hN : r.nextFrame s cx none with ⟨hd, ee, rr, ss, cc⟩
+      rw [hN] at h
+      simp only at h
+      cases ee with
+      | some x =>
+        simp only [Option.some.injEq, Prod.mk.injEq] at h
+        obtain ⟨h1, h2, _⟩ := h; rw [← h1, ← h2]; rfl
+      | none =>
+        by_cases hh1 : (strip rr).hasFrame = false
+        · rw [if_pos hh1] at h
+          simp only [Option.some.injEq, Prod.mk.injEq] at h
+          obtain ⟨h1, h2, _⟩ := h; rw [← h1, ← h2]; rfl
+        · rw [if_neg hh1] at h
+          exact tail_strip_n rr ss cc k bytes n e q s' cx' h
+    · have hfrg' : (strip r).fragmented = false := by simpa using hfrg
+      rw [read_idle _ _ _ _ hhas' hfrg'] at h
+      simp only [Option.some.injEq, Prod.mk.injEq] at h
+      obtain ⟨h1, h2, _⟩ := h; rw [← h1, ← h2]; rfl
+
+/-- **Any sequence of Reads inside a text message.** Whatever the non-checking reader delivers
+    (`out`, ending `e`), the checking reader delivers the same and ends the same — as long as `out`
+    stays inside Table 3-7 and, if the message ended (`io.EOF`), ended between characters. Otherwise it
+    stops with ErrInvalidUTF8, having handed out a prefix of `out`. -/
+theorem reads_sim (ks : List Nat) : ∀ (σ : U8) (r : Rd) (s : Src) (cx : Ctx), TM σ r →
+    ∀ (out : Bytes) (e : Option RErr) (q : Rd) (s' : Src) (cx' : Ctx),
+      reads (strip r) s cx ks = some (out, e, q, s', cx') → Bytes.WF out →
+      (u8Run σ out ≠ .rej ∧ (e = some .eof → u8Run σ out = .acc)
+        ∧ ∃ r', reads r s cx ks = some (out, e, r', s', cx') ∧ strip r' = q ∧ (e = none → TM (u8Run σ out) r'))
+      ∨ ((u8Run σ out = .rej ∨ (e = some .eof ∧ u8Run σ out ≠ .acc))
+        ∧ ∃ out' r' s'' cx'', reads r s cx ks = some (out', some .utf8, r', s'', cx'') ∧ ∃ more, out = out' ++ more) := by
+  induction ks with
+  | nil =>
+    intro σ r s cx htm out e q s' cx' h _
+    simp only [reads, Option.some.injEq, Prod.mk.injEq] at h
+    obtain ⟨rfl, rfl, rfl, rfl, rfl⟩ := h
+    exact Or.inl ⟨by simpa [u8Run] using htm.ok, (fun hh => by cases hh), r, rfl, rfl, fun _ => by simpa [u8Run] using htm⟩
+  | cons k ks ih =>
+    intro σ r s cx htm out e q s' cx' h hwf
+    simp only [reads] at h ⊢
+    rcases hrd : (strip r).read s cx k none with _ | ⟨bytes, n, e1, q1, s1, cx1⟩
+    · rw [hrd] at h; simp at h
+    rw [hrd] at h
+    simp only at h
+    have hn : n = bytes.length := read_strip_n r s cx k bytes n e1 q1 s1 cx1 hrd
+    subst hn
+    rw [List.take_length] at h
+    cases e1 with
+    | some x =>
+      -- the non-checking reader stops here
+      simp only [Option.some.injEq, Prod.mk.injEq] at h
+      obtain ⟨rfl, rfl, rfl, rfl, rfl⟩ := h
+      obtain ⟨_, hsim⟩ := read_sim σ r s cx k htm bytes bytes.length (some x) q1 s1 cx1 hrd hwf
+      rcases hsim with ⟨a1, a2, r', a3, a4, _⟩ | ⟨a1, m, r', a3⟩
+      · left
+        refine ⟨a1, a2, r', ?_, a4, (fun hh => by cases hh)⟩
+        rw [a3]; simp
+      · right
+        refine ⟨a1, bytes.take m, r', s1, cx1, ?_, bytes.drop m, (List.take_append_drop m bytes).symm⟩
+        rw [a3]
+    | none =>
+      simp only at h
+      rcases hrs : reads q1 s1 cx1 ks with _ | ⟨o, e2, r2, s2, cx2⟩
+      · rw [hrs] at h; simp at h
+      rw [hrs] at h
+      simp only [Option.some.injEq, Prod.mk.injEq] at h
+      obtain ⟨rfl, rfl, rfl, rfl, rfl⟩ := h
+      obtain ⟨_, hsim⟩ := read_sim σ r s cx k htm bytes bytes.length none q1 s1 cx1 hrd (wf_left hwf)
+      rcases hsim with ⟨a1, _, r', a3, a4, a5⟩ | ⟨a1, m, r', a3⟩
+      · -- this Read went the same way; continue from the new state
+        have htm' := a5 rfl
+        rw [← a4] at hrs
+        rcases ih (u8Run σ bytes) r' s1 cx1 htm' o e2 r2 s2 cx2 hrs (wf_right hwf) with
+          ⟨b1, b2, r'', b3, b4, b5⟩ | ⟨b1, o', r'', s'', cx'', b3, more, b4⟩
+        · left
+          refine ⟨by rw [u8Run_append]; exact b1, fun hh => by rw [u8Run_append]; exact b2 hh, r'', ?_, b4,
+            fun hh => by rw [u8Run_append]; exact b5 hh⟩
+          rw [a3]; simp only [List.take_length, b3]
+        · right
+          refine ⟨?_, bytes ++ o', r'', s'', cx'', ?_, more, by rw [b4, List.append_assoc]⟩
+          · rcases b1 with b1 | ⟨b1, b2⟩
+            · exact Or.inl (by rw [u8Run_append]; exact b1)
+            · exact Or.inr ⟨b1, by rw [u8Run_append]; exact b2⟩
+          · rw [a3]; simp only [List.take_length, b3]
+      · -- ErrInvalidUTF8 in this Read
+        right
+        rcases a1 with a1 | ⟨a1, _⟩
+        · refine ⟨Or.inl (u8Run_rej_of_prefix σ bytes o a1), bytes.take m, r', s1, cx1, ?_,
+            bytes.drop m ++ o, by rw [← List.append_assoc, List.take_append_drop]⟩
+          rw [a3]
+        · cases a1
 
 end Ws.RdText
